@@ -199,6 +199,12 @@ func newFramerSys(meta Meta, seed int64, init any) (Sys, error) {
 		go func() {
 			buf := make([]byte, 70000) // one buffer reused across calls, as Server.readLoop does
 			zero := 0
+			// a panic inside the packetiser is a result like any other (reported as an error of the read that raised it)
+			defer func() {
+				if p := recover(); p != nil {
+					s.res <- frameRes{err: fmt.Errorf("PANIC in STUNConn.ReadFrom: %v", p)}
+				}
+			}()
 			for {
 				n, _, err := sc.ReadFrom(buf)
 				r := frameRes{n: n, err: err}
